@@ -9,8 +9,10 @@ ModelPasteOK(c) == (c.align = <<>> \/ c.align = <<0>>) /\ (c.pad = <<>> \/ c.pad
 VAxis(e) == LET v == AxisOK(e.c, e.o) r == AxisOverlap(e.c.ns, e.c.nd, e.c.s, e.c.t) IN
   IF e.outcome # "ok" THEN "reject:raised_" \o e.outcome ELSE IF v # "ok" THEN "reject:" \o v
   ELSE IF e.c.s % 15 = 0 /\ 960 % Abs(e.c.s \div 15) = 0 /\ e.o # <<r.s0, r.s1, r.d0, r.d1>> THEN "drift:axis_overlap_differs_from_model" ELSE "ok"
+VBig(e) == IF e.outcome # "ok" THEN "reject:raised_" \o e.outcome
+           ELSE LET v == BigPlanOK(e.c, e.o) IN IF v # "ok" THEN "reject:" \o v ELSE "ok"
 V03(e) ==
-  IF "ns" \in DOMAIN e.c THEN VAxis(e) ELSE
+  IF "ns" \in DOMAIN e.c THEN VAxis(e) ELSE IF "den" \in DOMAIN e.c THEN VBig(e) ELSE
   LET c == e.c o == e.o v == PlanOK(c, o) IN
   IF e.outcome # "ok" THEN "reject:raised_" \o e.outcome
   ELSE IF v # "ok" THEN "reject:" \o v
